@@ -329,7 +329,7 @@ class C17(Check):
             slots = {}
             for _ in range(n):
                 js, good, bad, node, table = self._pick_schema(d)
-                op = d.weighted([("swrite", 5), ("parse", 5), ("validate", 4), ("sread", 4), ("cwrite", 3), ("cread", 3), ("jwrite", 3), ("jread", 2), ("canon", 3), ("generate", 2), ("fingerprint", 1), ("load", 1)])
+                op = d.weighted([("swrite", 5), ("parse", 5), ("validate", 4), ("sread", 4), ("cwrite", 3), ("cread", 3), ("jwrite", 3), ("jread", 2), ("canon", 3), ("generate", 2), ("fingerprint", 1), ("load", 2)])
                 if op == "parse" and slots and d.p(0.2):
                     op = "reparse"
                 use_slot = slots and (op == "reparse" or d.p(0.45)) and op not in ("parse", "fingerprint", "load", "cread")
@@ -421,6 +421,13 @@ class C17(Check):
         return histories()
 
     def fixed_cases(self, tier):
+        # two directories define the same type name differently; a leaf loaded on its own, then a schema that refers to it
+        item_s = {"type": "record", "name": "Item", "fields": [{"name": "sku", "type": "string"}]}
+        item_l = {"type": "record", "name": "Item", "fields": [{"name": "sku", "type": "long"}]}
+        yield {"calls": [{"op": "load", "files": {"Order": copy.deepcopy(ITEM_REF), "Item": item_s}, "top": "Order"}, {"op": "load", "files": {"Order": copy.deepcopy(ITEM_REF), "Item": item_l}, "top": "Order"},
+                         {"op": "load", "files": {"Order": copy.deepcopy(ITEM_REF), "Item": item_s}, "top": "Order"}]}
+        yield {"calls": [{"op": "load", "files": {"Item": item_s}, "top": "Item"}, {"op": "load", "files": {"Order": copy.deepcopy(ITEM_REF), "Item": item_l}, "top": "Order"},
+                         {"op": "load", "files": {"Order": copy.deepcopy(ITEM_REF)}, "top": "Order"}]}
         # a parsed object with optional attributes left out (decimal without scale), re-used by every kind of writer
         for op, arg in (("swrite", {"datum": copy.deepcopy(POOL[17][1][0])}), ("cwrite", {"records": copy.deepcopy(POOL[17][1]), "codec": "null"}), ("jwrite", {"records": copy.deepcopy(POOL[17][1])}),
                         ("validate", {"datum": copy.deepcopy(POOL[17][1][0]), "raise": False})):
